@@ -90,6 +90,10 @@ def run_script(cfg, ops, res: Result = None):
                 m = w.mods[op["c"]]
                 if m.tracked and m.connected and not m.client_closed and not m.conn.manager_closed:
                     w.apply({"op": "sub", "c": m.idx, "kind": "SUBSCRIBE", "type": 4321})
+            elif k == "_setname":
+                m = w.mods[op["c"]]
+                if m.tracked and m.connected and not m.client_closed and not m.conn.manager_closed:
+                    w.apply({"op": "setname", "c": m.idx, "name": op["name"]})
             elif k == "_probe":
                 ids = sorted({m.mod_id for m in w.mods if m.tracked and m.connected and m.mod_id > 0})
                 for i in ids:
@@ -122,6 +126,53 @@ def shard_pairs(idx, nshards, stride):
         n += 1
     res.evaluations += n
     res.count("pairs-enumerated", n)
+    return res
+
+
+# ---- (2b) three holders around one name --------------------------------------------------------------
+# A name can legally be held by several live modules (the name rule does not apply to dynamic ids, renaming is unchecked):
+# a third connect must still be judged against EVERY incumbent, not against the last holder of the name or id.
+TRI_PARAMS = [(i, m, n) for i in (0, 10, 11, 12) for m in (0, 1) for n in ("", "alpha", "beta")]
+TRI_STEPS = [("connect",) + p for p in TRI_PARAMS] + [("setname", "alpha"), ("setname", "beta")]
+
+
+def triple_ops(steps):
+    ops = list(monitor_setup())
+    ops.append({"op": "_drain"})
+    c = 1
+    for k, st_ in enumerate(steps):
+        if st_[0] == "connect":
+            _, rid, multi, name = st_
+            c += 1
+            ops.append({"op": "open"})
+            ops.append({"op": "connect", "c": c, "ver": "v2v1", "id": rid, "logger": 0, "daemon": 0, "multi": multi,
+                        "name": name, "pid": 500 + k})
+            ops.append({"op": "_drain"})
+            ops.append({"op": "_subprobe", "c": c})
+        elif c >= 2:
+            # the module connected last renames itself
+            ops.append({"op": "_setname", "c": c, "name": st_[1]})
+        ops.append({"op": "_drain"})
+    ops.append({"op": "_probe"})
+    ops.append({"op": "_drain"})
+    return ops
+
+
+def shard_triples(idx, nshards, stride):
+    res = Result()
+    n = 0
+    firsts = [("connect",) + p for p in TRI_PARAMS if p[2]]  # the first module carries a name
+    for i, steps in enumerate(itertools.product(firsts, TRI_STEPS, [("connect",) + p for p in TRI_PARAMS])):
+        if i % nshards != idx or (i // nshards) % stride:
+            continue
+        ops = triple_ops(steps)
+        try:
+            run_script(CFGS[0], ops, res)
+        except Violation as v:
+            res.add_finding(v.key, v.what, {"kind": "script", "cfg": CFGS[0], "ops": ops})
+        n += 1
+    res.evaluations += n
+    res.count("triples-enumerated", n)
     return res
 
 
@@ -415,7 +466,7 @@ def shard_hist(seed, n, max_len):
 
 
 def shard(kind, *a):
-    return {"hist": shard_hist, "pairs": shard_pairs, "churn": shard_churn, "entry": shard_entry}[kind](*a)
+    return {"hist": shard_hist, "pairs": shard_pairs, "triples": shard_triples, "churn": shard_churn, "entry": shard_entry}[kind](*a)
 
 
 def run(ctx: RunContext) -> int:
@@ -423,11 +474,13 @@ def run(ctx: RunContext) -> int:
     n = ctx.scale(500, 12000)
     jobs = [("hist", derive_seed(ctx.seed, i), n, 60 if ctx.quick else 140) for i in range(12)]
     jobs += [("pairs", i, 16, 1) for i in range(16)]
+    jobs += [("triples", i, 16, 1) for i in range(16)]
     jobs += [("churn", derive_seed(ctx.seed, 100 + i), ctx.scale(6, 120)) for i in range(4)]
     jobs += [("entry", derive_seed(ctx.seed, 200 + i), ctx.scale(150, 2000)) for i in range(4)]
     res = run_shards(shard, jobs)
     res.notes.append("sub-domain enumerated completely: all 17424 ordered pairs of consecutive connects over "
-                     "(11 id classes x allow-multiple x 3 names x 2 protocol versions)")
+                     "(11 id classes x allow-multiple x 3 names x 2 protocol versions); and all 9984 sequences (named first connect) x "
+                     "(second connect or rename of the first module) x (third connect) over (id 0/10/11/12 x allow-multiple x 3 names)")
     return conclude(ctx, res, RULE, ASSUME, t0)
 
 
